@@ -418,12 +418,12 @@ impl Check for SingleCheck {
         let (r, pre_case) = std::thread::scope(|sc| {
             sc.spawn(|| {
                 let mut pt = Tape::new(&pre[2]);
-                if pspec.n() >= 65 {
+                if pspec.n() >= 41 {
                     pt.enable_tail();
                 }
                 let pr = run_single(&pspec, &pcfg, Schedule::Tape(&mut pt, self.max_actions.max(3 * pspec.n() + 20), pcfg.abort_after));
                 let mut st = Tape::new(&tapes[2]);
-                if spec.n() >= 65 {
+                if spec.n() >= 41 {
                     st.enable_tail();
                 }
                 let r = run_single(&spec, &cfg, Schedule::Tape(&mut st, self.max_actions.max(3 * spec.n() + 20), cfg.abort_after));
@@ -444,7 +444,7 @@ impl Check for SingleCheck {
     fn run_case(&self, tapes: &[Vec<u16>], want_decoded: bool) -> CaseReport {
         let (spec, cfg) = self.decode(tapes);
         let mut st = Tape::new(&tapes[2]);
-        if spec.n() >= 65 {
+        if spec.n() >= 41 {
             st.enable_tail();
         }
         let max_actions = self.max_actions.max(3 * spec.n() + 20);
